@@ -526,7 +526,7 @@ func genC07(g *genCtx) {
 		case 5:
 			e = "not(" + par(r.pick([]string{boo(), set()})) + ") " + r.pick([]string{"and", "or"}) + " " + par(boo())
 		default:
-			e = par(par(num()) + " " + r.pick(cmpOps) + " " + par(num())) + " " + r.pick([]string{"and", "or"}) + " " + par(par(str()) + " = " + par(set()))
+			e = par(par(num())+" "+r.pick(cmpOps)+" "+par(num())) + " " + r.pick([]string{"and", "or"}) + " " + par(par(str())+" = "+par(set()))
 		}
 		g.add(&Case{Kind: "eval", Doc: d, Ctx: pickNodeCtx(r, d), Expr: e})
 	}
